@@ -74,7 +74,7 @@ ASSUMPTIONS = [
     'the UI configuration is an input: progress_cb installed or not, terminate_flashing_cb absent or answering a given '
     'sequence; error_cb is never read by cflib/bootloader; the callbacks themselves do not raise',
 ]
-PROVED = ('Thirty-six theorems (C12/Property.v), all closed under the global context. Single image: exact placement, '
+PROVED = ('Thirty-nine theorems (C12/Property.v), all closed under the global context. Single image: exact placement, '
           'nothing outside its pages, no out-of-range command, other target untouched, refusal before any write, negative '
           'override raises before any flash-write, frame sizes, per-page loads exactly once in order, bounded retry then abort. '
           'Geometry: info packet decoded exactly, only a received matching packet is reported, at most six requests. nRF51 '
@@ -93,7 +93,9 @@ PROVED = ('Thirty-six theorems (C12/Property.v), all closed under the global con
           'on the downlink queue it finds, so its writes are a function of its own request and the script position however '
           'the previous flash ended; a buffer counter surviving an abort is refuted. Reference-keeping links: if no packet '
           'cell is written after hand-over, deferred serialisation equals immediate serialisation; upload_buffer hands over '
-          'a new cell per chunk, so its deferred stream is the model\'s frame list; one reused cell is refuted.')
+          'a new cell per chunk, so its deferred stream is the model\'s frame list; one reused cell is refuted. Receive '
+          'streams: against every function nat -> receive result write_flash sends 1..6 commands with one receive each; a '
+          'stream without the answer gives failure after six and six; not counting strays is refuted.')
 NOT_PROVED = ('zip/manifest parsing (incl. the legacy manifest-v1 rule that adds the distro s110 binary), flash_full / '
               'start_bootloader / _get_boot_delay (need a firmware-side Crazyflie), deck flashing, reset/reconnect (played by '
               'the fake) are not modelled; final content when two selected images overlap on one target is not stated. Loss of buffer-load packets, a target whose real geometry differs from the reported one, and replies '
@@ -101,7 +103,7 @@ NOT_PROVED = ('zip/manifest parsing (incl. the legacy manifest-v1 rule that adds
               'the flush of the next) are outside the model; bytes of the last flash page beyond the image end take '
               'whatever the buffer held (inside the occupied range, allowed by the statement).')
 
-HEADER = ('From CF Require Import Common.Bytes C12.Model C12.Session C12.Plan C12.Callbacks C12.History C12.Alias.\nOpen Scope Z_scope.\n'
+HEADER = ('From CF Require Import Common.Bytes C12.Model C12.Session C12.Plan C12.Callbacks C12.History C12.Alias C12.Stream.\nOpen Scope Z_scope.\n'
           'Fixpoint zr (a : Z) (n : nat) : list Z := match n with O => [] | S k => a :: zr (a + 1) k end.\n'
           'Definition mem (n salt : Z) : list Z := map (fun a => ((a * 7 + salt) * 13 + a / 8) mod 251) (zr 0 (Z.to_nat n)).\n'
           'Definition dg1 (p b : Z) (l : list Z) : Z := fold_left (fun h v => (h * b + v + 1) mod p) l 7.\n'
@@ -1380,7 +1382,9 @@ def gen_history_case(rng, for_oracle=False):
     return c
 
 
-HFAULTS = [None, None, {'kind': 'negative', 'call': 0}, {'kind': 'negative', 'call': 1}, {'kind': 'lost_forever', 'call': 0},
+HFAULTS = [{'kind': 'stray_flood', 'call': 0, 'k': 300, 'strays': 0}, {'kind': 'stray_flood', 'call': 1, 'k': 300, 'strays': 1},
+           {'kind': 'stray_flood', 'call': 0, 'k': 300, 'strays': 2, 'exec': True},
+           None, None, {'kind': 'negative', 'call': 0}, {'kind': 'negative', 'call': 1}, {'kind': 'lost_forever', 'call': 0},
            {'kind': 'lost_forever', 'call': 1, 'up': False}, {'kind': 'lost_k', 'call': 0, 'k': 2}, {'kind': 'late_k', 'call': 0, 'k': 2}]
 
 
@@ -1402,6 +1406,9 @@ def check_history(case, faults):
         ln = len(img)
         npg = (ln + ps - 1) // ps
         idx = [i for i, t in enumerate(case['targets']) if t['id'] == fl['addr']][0]
+        if r['code'] == 98 and 'listen budget' in r['detail']:
+            return fail('flash_write_not_bounded', k, 'abort after a bounded number of attempts', {'detail': r['detail']},
+                        'write_flash kept listening instead of aborting')
         if r['code'] in (98, 99):
             return fail('unexpected_exception', k, 'success or a flashing error', {'detail': r['detail']}, '')
         for (h, d, deliv) in r['frames']:
@@ -1477,6 +1484,60 @@ def check_history(case, faults):
 
 
 
+# ------------------------------------------------------------------------------------------------ write_flash against a stream of receive results
+def run_write_flash_stream(case):
+    """case: {'addr', 'rx': [None | [hdr, data]], 'tail': None | [hdr, data]} -> [result code, receives, sends]"""
+    from cflib.bootloader.cloader import Cloader
+    from cflib.crtp.crtpstack import CRTPPacket
+    link = fs.StreamLink(case['rx'], case['tail'], CRTPPacket)
+    cl = Cloader(None)
+    cl.link = link
+    try:
+        r = cl.write_flash(case['addr'], 0, 3, 2)
+        code = 1 if r is True else (0 if r is False else 97)
+    except ft.HarnessAbort:
+        code = 98
+    except IndexError:
+        code = 2
+    except Exception:
+        code = 99
+    return [code, link.k, len(link.sent)]
+
+
+def stream_term(case):
+    def e(x):
+        return 'None' if x is None else '(Some %s)' % _pkt(x)
+    return ('let \'(r, k, s) := write_flash_stream %d (fun j => nth j [%s] %s) in '
+            '[match r with WTrue => 1 | WFalse => 0 | WRaise _ => 2 end; Z.of_nat k; Z.of_nat s]'
+            % (case['addr'], '; '.join(e(x) for x in case['rx']), e(case['tail'])))
+
+
+def gen_stream_case(rng):
+    addr = rng.choice([STM, NRF])
+
+    def stray():
+        return rng.choice(stray_packets(addr, rng.randrange(4)) + [rand_pkt(rng, addr) for _ in range(2)])
+    n = rng.choice([0, 1, 2, 3, 5, 6, 7, 12])
+    rx = [rng.choice([None, stray(), stray()]) for _ in range(n)]
+    tail = rng.choice([None, stray(), ack(addr), ack(addr, 0, 7)])
+    if rng.random() < 0.5:
+        rx.append(rng.choice([ack(addr), ack(addr, 0, 3), [0xFF, [addr, 0x18]], [0xFF, [addr, 0x18, 1]]]))
+    return {'addr': addr, 'rx': rx, 'tail': tail}
+
+
+def check_stream_case(case):
+    """Text: a flash-write that goes unanswered (whatever else the link delivers) is given up after a bounded number
+    of attempts."""
+    obs = run_write_flash_stream(case)
+    if obs[0] == 98 or obs[2] > 16:
+        return {'class': 'flash_write_not_bounded', 'case': {'kind': 'stream', 'case': case},
+                'expected': 'write_flash returns after a bounded number of commands and receives',
+                'observed': {'receives': obs[1], 'commands': obs[2]},
+                'detail': 'write_flash did not give up although the command is never answered'}
+    return None
+
+
+
 def tie_extra(ctx):
     """update_info cases and whole-session cases; returns (n, disagreements, distribution, samples)."""
     dis = []
@@ -1533,6 +1594,11 @@ def tie_extra(ctx):
         key = '>'.join(CODES.get(r['code'], 'LinkError' if r['code'] == 7 else str(r['code'])) for r in recs)
         dist['history_outcomes'][key] = dist['history_outcomes'].get(key, 0) + 1
     fut_4 = compare_async(terms, exp5, 'c12h', max(10, len(terms) // 5 + 1))
+    # write_flash against streams of receive results (silence / strays / answers, finite prefix + endless tail)
+    wcases = [gen_stream_case(rng) for _ in range(ctx.scale(150, 2000))]
+    wterms = [stream_term(c) for c in wcases]
+    exp6 = [run_write_flash_stream(c) for c in wcases]
+    fut_w = compare_async(wterms, exp6, 'c12w', max(10, len(wterms) // 4 + 1))
     # read_flash
     rcases = [gen_read_case(rng) for _ in range(ctx.scale(150, 2500))]
     terms = [read_term(c) for c in rcases]
@@ -1575,9 +1641,12 @@ def tie_extra(ctx):
     for bi, mv in fut_5.result():
         dis.append({'what': 'read_flash: model and implementation differ', 'case': rcases[bi],
                     'model': mv if mv is None else mv[:30], 'impl': exp4[bi][:30]})
+    for bi, mv in fut_w.result():
+        dis.append({'what': 'write_flash on a receive stream: model and implementation differ', 'case': wcases[bi],
+                    'model': mv, 'impl': exp6[bi]})
     samples = [{'update_info': {'tid': icases[0]['tid'], 'events': icases[0]['events'][:2], 'impl': exp[0][:8]}},
                {'flash_plan': _short(keep3[-1]) if keep3 else None}]
-    return len(icases) + len(keep) + len(keep3) + len(rcases) + len(hcases), dis, dist, samples
+    return len(icases) + len(keep) + len(keep3) + len(rcases) + len(hcases) + len(wcases), dis, dist, samples
 
 
 
@@ -1667,6 +1736,16 @@ def hash_int(case):
 
 
 # ------------------------------------------------------------------------------------------------ oracle
+def stray_packets(addr, which=0):
+    """Packets that are not the answer of target addr to a flash-write command"""
+    other = [0xFF, [addr ^ 1, 0x18, 1, 0]]             # the other target's acknowledgement
+    sets = [[other],
+            [other, [0xFF, [addr, 0x14, 1, 0]], [0xFF, [addr]], [0x00, [addr, 0x18, 1, 0]]],   # + wrong command, short, console port
+            [[0xFF, [addr, 0x1C, 0, 0, 0, 0, 1, 2, 3]], [0xFF, [addr ^ 1, 0x10] + [0] * 20]],  # read reply, other target's info
+            [[0xFF, []], other]]
+    return sets[which % len(sets)]
+
+
 class Policy:
     """Fate of flash-write commands decided per (write call, attempt) — a write call is a maximal run of
     identical consecutive 0x18 frames.  Always honest: a positive acknowledgement only after delivery."""
@@ -1696,6 +1775,10 @@ class Policy:
                 a = att_lost_up() if f.get('up', True) else att_lost_reply()
             elif kind == 'negative':
                 a = att_neg(self.addr, f.get('code', 5), f.get('exec', False))
+            elif kind == 'stray_flood':
+                # the command goes unanswered while the link delivers OTHER packets on every listen, for k listens
+                a = {'deliv': bool(f.get('exec', False)), 'intime': [], 'late': [],
+                     'flood': {'pkts': stray_packets(self.addr, f.get('strays', 0)), 'k': f.get('k', 300)}}
             elif kind == 'lost_k' and self.call == f['call']:
                 if self.att < f['k']:
                     a = att_lost_up() if f.get('up', True) else att_lost_reply()
@@ -1726,6 +1809,10 @@ def check_case(case, fault=None):
         return {'class': cls, 'case': {'case': case, 'fault': fault}, 'expected': expected, 'observed': observed,
                 'detail': detail_}
 
+    if code == 98 and 'listen budget' in detail:
+        return fail('flash_write_not_bounded', 'the flash-write is given up after a bounded number of attempts and the '
+                    'flashing aborts with an error', detail,
+                    'write_flash kept listening (more than 200 receive_packet calls for one command) instead of aborting')
     if code == 98:
         return fail('write_retry_unbounded', 'a bounded number of flash-write attempts', detail,
                     'the flash-write command was re-sent more than 64 times')
@@ -1822,19 +1909,22 @@ def check_case(case, fault=None):
                                 (fault['kind'] == 'lost_k' and fault['k'] <= 4)):
             return fail('spurious_abort', 'success', CODES[code], 'flashing failed although every write was acknowledged '
                         'within five attempts')
-    if pol is not None and fault is not None and fault['kind'] in ('lost_forever', 'negative') and code == 0 \
+    if pol is not None and fault is not None and fault['kind'] in ('lost_forever', 'negative', 'stray_flood') and code == 0 \
             and fault['call'] < len(pol.calls):
         return fail('continued_after_failed_write', 'error', 'Done', 'write failed but flashing reported success')
     return None
 
 
+FLOODS = [{'kind': 'stray_flood', 'call': 0, 'k': 300, 'strays': 0}, {'kind': 'stray_flood', 'call': 1, 'k': 300, 'strays': 1},
+          {'kind': 'stray_flood', 'call': 0, 'k': 300, 'strays': 2, 'exec': True}, {'kind': 'stray_flood', 'call': 0, 'k': 3, 'strays': 3},
+          {'kind': 'stray_flood', 'call': 1, 'k': 40, 'strays': 1}, {'kind': 'stray_flood', 'call': 0, 'k': 7, 'strays': 0}]
 FAULTS = [None,
           {'kind': 'lost_forever', 'call': 0, 'up': True}, {'kind': 'lost_forever', 'call': 1, 'up': False},
           {'kind': 'negative', 'call': 0}, {'kind': 'negative', 'call': 1, 'exec': True, 'code': 1},
           {'kind': 'lost_k', 'call': 0, 'k': 1}, {'kind': 'lost_k', 'call': 1, 'k': 4, 'up': False},
           {'kind': 'lost_k', 'call': 0, 'k': 5}, {'kind': 'lost_k', 'call': 0, 'k': 9},
           {'kind': 'late_k', 'call': 0, 'k': 2}, {'kind': 'late_k', 'call': 1, 'k': 4},
-          {'kind': 'foreign', 'call': 0, 'k': 3}]
+          {'kind': 'foreign', 'call': 0, 'k': 3}] + FLOODS
 
 
 def grid_cases(ctx, deep):
@@ -2057,6 +2147,15 @@ def oracle_extra(ctx, deep, rng):
         r = check_plan_session(c)
         if r and not any(x['class'] == r['class'] for x in fails):
             fails.append(shrink_plan(r))
+    for k in range(ctx.scale(200, 2000)):
+        c = gen_stream_case(rng)
+        if k % 3 == 0:      # never answered, strays for ever
+            c['tail'] = rng.choice(stray_packets(c['addr'], k))
+            c['rx'] = [x for x in c['rx'] if x is None or not (x[1][:2] == [c['addr'], 0x18] and (x[0] | 0x0C) == 0xFF)]
+        n += 1
+        r = check_stream_case(c)
+        if r and not any(x['class'] == r['class'] for x in fails):
+            fails.append(r)
     hist = [(c, f) for (c, f) in corpus_history_entries() if f is not None]
     for _ in range(ctx.scale(350, 6000) * (2 if deep else 1)):
         c = gen_history_case(rng, for_oracle=True)
@@ -2267,6 +2366,8 @@ def replay(payload, ctx):
         return check_plan_session(c['case'])
     if c.get('kind') == 'read':
         return check_read_case(c['case'])
+    if c.get('kind') == 'stream':
+        return check_stream_case(c['case'])
     if c.get('kind') == 'history':
         return check_history(c['case'], c['faults'])
     return check_case(c['case'], c.get('fault'))
